@@ -24,9 +24,15 @@ func init() {
 }
 
 // ruleReadySet is shared by C07/C08/C19: getReadyWallets admits only Ready && !IsRemoved.
-func ruleReadySet(c *report.Ctx) {
+// needReady / needNotRemoved select the half of the conjunction that belongs to the calling property's clause
+// (C07: an importing wallet is not fed live; C08: a wallet being removed gets no new rows; C19: both, either one panics the follower).
+func ruleReadySet(c *report.Ctx, needReady, needNotRemoved bool) {
 	p := c.P
-	c.Rule("ready-set", "the follower's ready-wallet set and the CheckReady gate admit a wallet only if it is Ready and not flagged for removal", 2)
+	floor := 1
+	if needReady {
+		floor = 2
+	}
+	c.Rule("ready-set", "the follower's ready-wallet set (and, for selection, the CheckReady gate) admit a wallet only if it is Ready / not flagged for removal — the half this property depends on", floor)
 	ready := fn(c, pkgTxmgr, "WalletStatus", "Ready")
 	removed := fn(c, pkgTxmgr, "WalletStatus", "IsRemoved")
 	grw := fn(c, pkgWallet, "NtfnsHandler", "getReadyWallets")
@@ -42,8 +48,8 @@ func ruleReadySet(c *report.Ctx) {
 			}
 			n++
 			gs := p.GuardsOf(mu)
-			r := an.AnyAtom(gs, func(a an.Atom) bool { return an.BoolCall(a, ready, "", true) })
-			nr := an.AnyAtom(gs, func(a an.Atom) bool { return an.BoolCall(a, removed, "", false) })
+			r := !needReady || an.AnyAtom(gs, func(a an.Atom) bool { return an.BoolCall(a, ready, "", true) })
+			nr := !needNotRemoved || an.AnyAtom(gs, func(a an.Atom) bool { return an.BoolCall(a, removed, "", false) })
 			key := sk(grw) + ":admit"
 			if r && nr {
 				c.OK(key, "under Ready() && !IsRemoved()", posOf(c, in))
@@ -63,7 +69,7 @@ func ruleReadySet(c *report.Ctx) {
 		}
 	}
 	cr := fn(c, pkgWallet, "WalletManager", "CheckReady")
-	if cr != nil {
+	if cr != nil && needReady {
 		// the success return value is Ready() && !IsRemoved()
 		ok := false
 		for _, b := range cr.Blocks {
@@ -100,7 +106,7 @@ func ruleReadySet(c *report.Ctx) {
 func runC07(c *report.Ctx) {
 	p := c.P
 	ruleSuspendResume(c)
-	ruleReadySet(c)
+	ruleReadySet(c, true, false)
 
 	c.Rule("select-gate", "UseWallet selects a keystore only after CheckReady succeeded and reported ready", 1)
 	use := fn(c, pkgWallet, "WalletManager", "UseWallet")
